@@ -81,7 +81,13 @@ func ZZ_C13_InboundQuota() {
 	c, _ := srv.newClient(conn)
 	done := false
 	go func() { c.serve(); done = true }()
-	conn.in <- zzEncode(zzV5Connect("c1"))
+	cp := zzV5Connect("c1")
+	if zzrt.Choice(2) == 1 {
+		// what the client declares limits the other direction only
+		one := uint16(1)
+		cp.Properties.ReceiveMaximum = &one
+	}
+	conn.in <- zzEncode(cp)
 	zzrt.Yield()
 	off := 0
 	first := zzDecodeAll(conn, &off)
